@@ -269,6 +269,9 @@ type Cluster struct {
 	// CutExact: for r.Fault == "cut-exact", the number of response bytes to
 	// deliver before the connection ends, and whether it ends with RST (else EOF)
 	CutExact func(r *Req) (int, bool)
+	// CutSilent: after the bytes of a "cut-exact" fault the broker neither
+	// closes nor sends anything more on the connection
+	CutSilent bool
 	// MutateFrame post-processes the encoded response frame (framing faults)
 	MutateFrame func(r *Req, frame []byte) []byte
 	// TruncateAtMaxBytes: a partition's record set is cut at partition_max_bytes
@@ -534,6 +537,9 @@ func (b *Broker) respond(c *Conn, st *connState, r *Req, body rc.Msg) {
 		}
 		if cut >= 0 {
 			c.Deliver(frame[:cut])
+			if cl.CutSilent {
+				return // (the connection stays busy: the broker has stalled)
+			}
 			if rst {
 				c.ServerResetAfterData()
 			} else {
